@@ -149,6 +149,9 @@ func (ce *cenv) ident(name string) Term {
 		return tFalse
 	case "nil":
 		return Term{S: "0", Sort: SInt, T: types.Typ[types.UntypedNil]}
+	case "clock":
+		// ghost clock: every time.Now() returns a value >= clock and advances it
+		return ce.fc.get(ce.st, heapKey{"X", "clock"}, SInt, nil)
 	}
 	fc := ce.fc
 	// ghost loop variables: visitedN (set of keys already iterated in map-range loop N), idxN, curN
@@ -459,7 +462,11 @@ func (ce *cenv) field(x Term, name string) Term {
 	fc.safe = false
 	ref, rt, ff := fc.selectPath(ce.st, x, x.T, index, token.NoPos, "")
 	fc.safe = saved
-	return fc.readField(ce.st, ref, rt, ff)
+	v := fc.readField(ce.st, ref, rt, ff)
+	if fc.qdepth == 0 && !ce.st.dead() {
+		fc.allocated(ce.st, v) // references stored in the heap predate the allocation mark of that state
+	}
+	return v
 }
 
 func lookupFieldAnyPkg(t types.Type, name string) (types.Object, []int) {
@@ -587,6 +594,15 @@ func (ce *cenv) call(e *CExpr) Term {
 				return boolT(fmt.Sprintf("(%s %s)", fc.sliceNilFn(args[0].Sort), args[0].S))
 			}
 			return boolT(fmt.Sprintf("(= %s 0)", args[0].S))
+		case "as":
+			// as(x, "T"): the value of interface x viewed as concrete type T (x.(T) without the check)
+			x := ce.expr(e.Args[1])
+			ts, _ := strconv.Unquote(e.Args[2].Lit)
+			t := ce.resolveType(ts)
+			if isInterface(t) {
+				return Term{S: x.S, Sort: SInt, T: t}
+			}
+			return fc.unbox(x, t)
 		case "typeis":
 			// typeis(x, "T"): dynamic type tag test by type string
 			x := ce.expr(e.Args[1])
@@ -682,6 +698,9 @@ func (ce *cenv) havocTarget(a *CExpr) {
 				nv := fc.freshSort(fc.keyName(k), old.Sort)
 				nv.T = old.T
 				st.vars[k] = nv
+				if hk, ok := k.(heapKey); ok {
+					fc.wlog = append(fc.wlog, wrec{hk, "*"})
+				}
 			}
 			return
 		}
